@@ -5,7 +5,7 @@
 #include "c16.h"
 
 // tables of c16_env.c (vp_c16_pick)
-enum { TB_TAG = 0, TB_TYPE = 1, TB_CHILD = 2, TB_CHILDNS = 3, TB_NS = 4, TB_MECH = 5 };
+enum { TB_TAG = 0, TB_TYPE = 1, TB_CHILD = 2, TB_CHILDNS = 3, TB_NS = 4, TB_MECH = 5, TB_OTAG = 6, TB_STAG = 7 };
 enum { TAG_IQ, TAG_MESSAGE, TAG_PRESENCE, TAG_OTHER, NTAG };
 enum { TY_NONE, TY_SET, TY_GET, TY_SUBSCRIBE, TY_SUBSCRIBED, TY_RESULT, TY_OTHER, NTYPE };
 enum { CH_BIND, CH_SESSION, CH_OTHER, NCHILD };
@@ -73,8 +73,9 @@ static void client_auth(int mode)
     unsigned nel = w.count(SIG_ELEMENT), nco = w.count(SIG_CONNECTED);
     vp_assert(nel <= 1 && nco <= 1 && nel + nco <= 1, "C16 one stanza is routed at most once / binds at most once");
     if (nel == 1) {
-        QDomElement out = w.routed();
-        const QString f = out.attribute(QStringLiteral("from"));
+        // QDomElement is an explicitly shared handle: the element handed to routing is a handle to the received node (stamped in place)
+        vp_assert(w.routed() == s.el, "C16 the element handed to routing is the received stanza");
+        const QString f = s.el.attribute(QStringLiteral("from"));
         vp_assert(eq(f, w.jid0) || eq(f, bare0), "C16 a routed stanza carries the authenticated address (full or bare) as its from");
         vp_assert(s.from.isEmpty() || eq(s.from, w.jid0) || eq(s.from, bare0), "C16 a stanza claiming a foreign from is not routed");
         vp_assert(s.tag != TAG_OTHER, "C16 only iq/message/presence are handed to routing");
@@ -92,5 +93,102 @@ extern "C" void h_client_auth_route() { client_auth(0); }
 extern "C" void h_client_auth_bind() { client_auth(1); }
 extern "C" void h_client_auth_drop() { client_auth(2); }
 
-extern "C" void h_probe_warm() { vpC16Warm(); }
-extern "C" void h_probe_world() { World w(1); ClientStanza s; s.build(); }
+// ---- (3) elements outside jabber:client and the SASL namespaces: <starttls/> and anything foreign -------------------------------
+extern "C" void h_other_ns()
+{
+    World w(2);
+    unsigned tagi = vp_u8(), nsi = vp_u8(); vp_assume(tagi < 5 && nsi >= 3 && nsi < 6);   // ns: tls | jabber:server | none
+    QDomElement el = mkElement(pick(TB_OTAG, tagi), pick(TB_NS, nsi));
+    setAttr(el, QStringLiteral("from"), vpSymString(3)); setAttr(el, QStringLiteral("to"), vpSymString(3)); setAttr(el, QStringLiteral("type"), pick(TB_TYPE, 1));
+    w.q->handleStanza(el);
+    vp_assert(w.count(SIG_ELEMENT) == 0 && w.count(SIG_CONNECTED) == 0, "C16 elements outside jabber:client are never routed and never bind");
+    vp_assert(eq(w.d->jid, w.jid0) && eq(w.d->resource, w.resource0), "C16 elements outside jabber:client / SASL never change address or resource");
+    const bool starttls = tagi == 0 && nsi == 3;
+    vp_assert(vp_c16_ntls() == (starttls ? 1u : 0u), "C16 TLS is started exactly for <starttls xmlns=tls/>");
+    vp_assert(vp_c16_sent_n() == (starttls ? 1u : 0u), "C16 only <starttls/> is answered (with <proceed/>)");
+}
+
+// ---- SASL -------------------------------------------------------------------------------------------------------------------------
+enum { M_PLAIN, M_DIGEST, M_ANON, M_SCRAM, M_LOWER, M_NONE, NMECH };
+static QByteArray asciiBytes(int maxlen)
+{
+    QByteArray raw = vpSymBytes(maxlen);
+    for (int i = 0; i < maxlen; i++) if (i < raw.size()) vp_assume((unsigned char)raw.at(i) < 0x80);   // UTF-8 codec is Qt's (identity on ASCII)
+    return raw;
+}
+static void setB64Text(QDomElement &e, const QByteArray &raw) { QString t = QString::fromUtf8(raw.toBase64()); vp_dom_set_text(&e, &t); }
+// reference parse of a PLAIN message  [authzid] NUL authcid NUL passwd  (RFC 4616)
+struct PlainRef {
+    int nul = 0, p1 = -1, p2 = -1;
+    PlainRef(const QByteArray &raw) { for (int i = 0; i < 8; i++) if (i < raw.size() && raw.at(i) == 0) { if (nul == 0) p1 = i; else if (nul == 1) p2 = i; nul++; } }
+    bool wellFormed() const { return nul == 2; }
+    bool userIs(const QByteArray &raw, const QString &u) const
+    {
+        if (u.size() != p2 - p1 - 1) return false;
+        bool ok = true; for (int i = 0; i < 8; i++) if (i < u.size() && u.at(i).unicode() != (unsigned char)raw.at(p1 + 1 + i)) ok = false;
+        return ok;
+    }
+    bool passwordIs(const QByteArray &raw, const QString &pw) const
+    {
+        if (pw.size() != raw.size() - p2 - 1) return false;
+        bool ok = true; for (int i = 0; i < 8; i++) if (i < pw.size() && pw.at(i).unicode() != (unsigned char)raw.at(p2 + 1 + i)) ok = false;
+        return ok;
+    }
+};
+static void noAuthEffect(World &w, const char *msg)
+{
+    vp_assert(w.count(SIG_ELEMENT) == 0 && w.count(SIG_CONNECTED) == 0 && eq(w.d->jid, w.jid0) && eq(w.d->resource, w.resource0), msg);
+}
+static bool failedAndClosed(unsigned failureKind) { return vp_c16_sent_n() == 1 && vp_c16_sent_kind(0) == failureKind && vp_c16_ndisconnect() == 1; }
+
+// (4) <auth xmlns=sasl mechanism=M>base64(payload)</auth> with a non-empty payload
+static void sasl_auth(bool sasl2)
+{
+    World w(2);
+    unsigned mech = vp_case_u(0, NMECH);
+    QByteArray raw = asciiBytes(6); vp_assume(!raw.isEmpty());
+    QDomElement el;
+    if (!sasl2) { el = mkElement(QStringLiteral("auth"), ns_sasl.toString()); setB64Text(el, raw); }
+    else {
+        el = mkElement(QStringLiteral("authenticate"), ns_sasl_2.toString());
+        QDomElement ir = mkElement(QStringLiteral("initial-response"), QString()); setB64Text(ir, raw); vp_dom_append(&el, &ir);
+    }
+    setAttr(el, QStringLiteral("mechanism"), pick(TB_MECH, mech));
+    w.q->handleStanza(el);
+    noAuthEffect(w, "C16 an <auth/> request alone never authenticates, binds or routes");
+    const unsigned K_FAIL = sasl2 ? K_SASL2_FAILURE : K_SASL_FAILURE, K_CHAL = sasl2 ? K_SASL2_CHALLENGE : K_SASL_CHALLENGE;
+    if (mech == M_PLAIN) {
+        PlainRef ref(raw);
+        if (ref.wellFormed()) {
+            vp_assert(w.checker.nCheck == 1 && w.checker.nDigest == 0, "C16 PLAIN: the password checker is asked exactly once");
+            vp_assert(ref.userIs(raw, w.checker.user) && ref.passwordIs(raw, w.checker.password) && eq(w.checker.domain, w.domain), "C16 PLAIN: the checker is asked for exactly the user, password and domain presented");
+            vp_assert(w.d->saslServer && eq(w.d->saslServer->username(), w.checker.user), "C16 PLAIN: the pending exchange remembers the user the checker was asked about");
+            vp_assert(vp_c16_sent_n() == 0 && vp_c16_ndisconnect() == 0, "C16 PLAIN: no answer before the checker replies");
+        } else {
+            vp_assert(w.checker.nCheck == 0 && w.checker.nDigest == 0, "C16 PLAIN: a malformed message is not submitted to the checker");
+            vp_assert(failedAndClosed(K_FAIL), "C16 PLAIN: a malformed message is answered with <failure/> and the stream is closed");
+        }
+    } else if (mech == M_DIGEST) {
+        vp_assert(w.checker.nCheck == 0 && w.checker.nDigest == 0, "C16 DIGEST-MD5: the first step asks nothing of the checker");
+        vp_assert(vp_c16_sent_n() == 1 && vp_c16_sent_kind(0) == K_CHAL && vp_c16_ndisconnect() == 0, "C16 DIGEST-MD5: the first step sends the challenge");
+    } else {
+        vp_assert(w.checker.nCheck == 0 && w.checker.nDigest == 0, "C16 other mechanisms never reach the checker");
+        vp_assert(failedAndClosed(K_FAIL), "C16 unknown / ANONYMOUS mechanism is answered with <failure/> and the stream is closed");
+        if (mech != M_ANON) vp_assert(!w.d->saslServer, "C16 unknown mechanism leaves no SASL exchange pending");
+    }
+}
+extern "C" void h_sasl_auth() { sasl_auth(false); }
+extern "C" void h_sasl2_auth() { sasl_auth(true); }
+
+// (5) no password checker configured: every SASL element is refused
+extern "C" void h_sasl_nochecker()
+{
+    World w(2, false);
+    unsigned nsi = vp_u8(), tagi = vp_u8(); vp_assume(nsi < 2 && tagi < 5);
+    QDomElement el = mkElement(pick(TB_STAG, tagi), pick(TB_NS, nsi));
+    setAttr(el, QStringLiteral("mechanism"), pick(TB_MECH, M_PLAIN));
+    setB64Text(el, asciiBytes(3));
+    w.q->handleStanza(el);
+    noAuthEffect(w, "C16 without a password checker nobody is authenticated");
+    vp_assert(failedAndClosed(nsi == 0 ? K_SASL_FAILURE : K_SASL2_FAILURE), "C16 without a password checker every SASL element is answered with <failure/> and the stream is closed");
+}
